@@ -30,20 +30,7 @@ type preparedCall struct {
 }
 
 func (x *Unit) evalCall(st *State, call *ast.CallExpr, n int) []Val {
-	res := x.evalCall1(st, call, n)
-	// remember the results of the latest call of this callee text: result_of(f, i) in contracts
-	if len(res) > 0 && x.inSpec == 0 {
-		ft := x.srcOf(call.Fun)
-		for i, r := range res {
-			k := fmt.Sprintf("res:%s:%d", ft, i)
-			if _, ok := x.entry.ghost[k]; !ok {
-				g := Val{x.fresh("res0", r.Sort), r.Typ}
-				x.entry.ghost[k] = g
-			}
-			st.ghost[k] = r
-		}
-	}
-	return res
+	return x.evalCall1(st, call, n)
 }
 
 func (x *Unit) evalCall1(st *State, call *ast.CallExpr, n int) []Val {
@@ -80,7 +67,7 @@ func (x *Unit) evalConversion(st *State, call *ast.CallExpr, to types.Type) Val 
 	case toS == SStr:
 		if _, ok := x.u.sliceElem[v.Sort]; ok {
 			r := x.uf("bytes2str_"+sortIdent(v.Sort), SStr, v.T)
-			x.fact(Eq(App(SInt, "str.len", r), x.u.SliceLen(v.T)))
+			x.fact(Eq(App(SInt, "gs.len", r), x.u.SliceLen(v.T)))
 			return Val{r, to}
 		}
 		return Val{x.uf("int2str", SStr, v.T), to}
@@ -88,7 +75,7 @@ func (x *Unit) evalConversion(st *State, call *ast.CallExpr, to types.Type) Val 
 		if es, ok := x.u.sliceElem[toS]; ok {
 			_ = es
 			r := x.define("str2bytes", x.uf("str2bytes_"+sortIdent(toS), toS, v.T))
-			x.fact(And(Eq(x.u.SliceLen(r), App(SInt, "str.len", v.T)), Cmp(">=", x.u.SliceCap(r), x.u.SliceLen(r))))
+			x.fact(And(Eq(x.u.SliceLen(r), App(SInt, "gs.len", v.T)), Cmp(">=", x.u.SliceCap(r), x.u.SliceLen(r))))
 			return Val{r, to}
 		}
 	}
@@ -108,7 +95,7 @@ func (x *Unit) evalBuiltin(st *State, call *ast.CallExpr, name string, n int) []
 			}
 			return []Val{{x.u.SliceCap(v.T), intT}}
 		case *types.Basic:
-			return []Val{{App(SInt, "str.len", v.T), intT}}
+			return []Val{{App(SInt, "gs.len", v.T), intT}}
 		case *types.Map:
 			return []Val{{x.u.MapLen(v.T), intT}}
 		case *types.Array:
@@ -137,7 +124,7 @@ func (x *Unit) evalBuiltin(st *State, call *ast.CallExpr, name string, n int) []
 			o := x.eval(st, call.Args[1])
 			var oln T
 			if o.Sort == SStr {
-				oln = App(SInt, "str.len", o.T)
+				oln = App(SInt, "gs.len", o.T)
 			} else {
 				oln = x.u.SliceLen(o.T)
 			}
@@ -153,7 +140,7 @@ func (x *Unit) evalBuiltin(st *State, call *ast.CallExpr, name string, n int) []
 				x.fact(T{fmt.Sprintf("(forall ((%s Int)) (! (=> (and (<= 0 %s) (< %s %s)) (= (select %s (+ %s %s)) (select %s %s))) :pattern ((select %s %s))))",
 					q, q, q, oln.S, narr.S, ln.S, q, oarr.S, q, oarr.S, q), SBool})
 			} else {
-				x.fact(T{fmt.Sprintf("(forall ((%s Int)) (! (=> (and (<= 0 %s) (< %s %s)) (= (select %s (+ %s %s)) (str.at %s %s))) :pattern ((str.at %s %s))))",
+				x.fact(T{fmt.Sprintf("(forall ((%s Int)) (! (=> (and (<= 0 %s) (< %s %s)) (= (select %s (+ %s %s)) (gs.at %s %s))) :pattern ((gs.at %s %s))))",
 					q, q, q, oln.S, narr.S, ln.S, q, o.S, q, o.S, q), SBool})
 			}
 			cp := x.fresh("appcap", SInt)
@@ -213,7 +200,7 @@ func (x *Unit) evalBuiltin(st *State, call *ast.CallExpr, name string, n int) []
 		s := x.eval(st, call.Args[1])
 		var sl T
 		if s.Sort == SStr {
-			sl = App(SInt, "str.len", s.T)
+			sl = App(SInt, "gs.len", s.T)
 		} else {
 			sl = x.u.SliceLen(s.T)
 		}
@@ -526,6 +513,34 @@ func (x *Unit) interiorAddr(st *State, lv *LV, n ast.Node) T {
 // ---------- invoking
 
 func (x *Unit) invoke(st *State, pc *preparedCall, n int) []Val {
+	ft := x.srcOf(pc.call.Fun)
+	if x.inSpec == 0 {
+		// calls(f): how many times the callee text f has been called on this path
+		k := "calls:" + ft
+		if _, ok := x.entry.ghost[k]; !ok {
+			x.entry.ghost[k] = Val{IntLit(0), intT}
+		}
+		cur, ok := st.ghost[k]
+		if !ok {
+			cur = x.entry.ghost[k]
+		}
+		st.ghost[k] = Val{x.define("calls", App(SInt, "+", cur.T, IntLit(1))), intT}
+	}
+	res := x.invoke1(st, pc, n)
+	// remember the results of the latest call of this callee text: result_of(f, i) in contracts
+	if len(res) > 0 && x.inSpec == 0 {
+		for i, r := range res {
+			k := fmt.Sprintf("res:%s:%d", ft, i)
+			if _, ok := x.entry.ghost[k]; !ok {
+				x.entry.ghost[k] = Val{x.fresh("res0", r.Sort), r.Typ}
+			}
+			st.ghost[k] = r
+		}
+	}
+	return res
+}
+
+func (x *Unit) invoke1(st *State, pc *preparedCall, n int) []Val {
 	call := pc.call
 	// direct literal
 	if pc.lit != nil {
@@ -922,6 +937,10 @@ func (x *Unit) applyContract(st *State, b *Block, pc *preparedCall, recvName str
 	}
 	pre := st.clone()
 	c := &specCtx{names: names, old: pre, pkg: pkg, what: b.Key}
+	x.letWitness++
+	savedMemo := x.witMemo
+	x.witMemo = map[string]Val{}
+	defer func() { x.letWitness--; x.witMemo = savedMemo }()
 	if x.litScope != nil {
 		// captured variables of the enclosing function are visible to the literal's contract
 		c.scope = x.pkg.Types.Scope().Innermost(x.litScope.Body.Lbrace + 1)
@@ -964,6 +983,17 @@ func (x *Unit) applyContract(st *State, b *Block, pc *preparedCall, recvName str
 		x.envStep(st)
 	}
 	// frame
+	hasMod := b.Flags["pure"]
+	for _, cl := range b.Clauses {
+		if cl.Kind == "modifies" {
+			hasMod = true
+		}
+	}
+	if !hasMod && b.Kind == "func" {
+		// a verified function without a modifies clause promises nothing about the frame
+		x.havocAllHeap(st)
+		x.havocGhosts(st)
+	}
 	for _, cl := range b.Clauses {
 		if cl.Kind != "modifies" && cl.Kind != "havoc" {
 			continue
@@ -971,6 +1001,7 @@ func (x *Unit) applyContract(st *State, b *Block, pc *preparedCall, recvName str
 		for _, m := range cl.Mods {
 			if id, ok := m.(*ast.Ident); ok && id.Name == "*" {
 				x.havocAllHeap(st)
+				x.havocGhosts(st)
 				continue
 			}
 			lv := x.specLV(pre, m, c)
@@ -979,6 +1010,12 @@ func (x *Unit) applyContract(st *State, b *Block, pc *preparedCall, recvName str
 			}
 			x.havocLV(st, lv)
 		}
+	}
+	// the callee may allocate
+	if !b.Flags["pure"] {
+		na := x.fresh("alloc", SInt)
+		x.assume(st, Cmp(">=", na, st.alloc))
+		st.alloc = na
 	}
 	// results
 	sig := pc.sig
@@ -1158,4 +1195,15 @@ func (x *Unit) bodySpecCtx(st *State, n ast.Node) *specCtx {
 		c.names[k] = v
 	}
 	return c
+}
+
+// havocGhosts forgets every declared ghost global (event counters, ghost maps); the clock only moves forward.
+func (x *Unit) havocGhosts(st *State) {
+	for _, name := range sortedKeys(x.eng.ghostDecls) {
+		if name == "now" {
+			continue
+		}
+		g := x.ghostGet(st, name)
+		st.ghost[name] = Val{x.fresh("G_"+name, g.Sort), g.Typ}
+	}
 }
